@@ -10,7 +10,7 @@ LEVEL = "other"
 TECHNIQUE = "static analysis: dominance / must-pass on the MIR of HttpServer::close, the server task and the join future in HttpServerStarter::start (async block, or symbolic evaluation of a futures-combinator chain); sibling agreement of the HTTP and HTTPS accept arms; who-reads and ownership censuses"
 LEVEL_TEXT = ("Decides on all paths of the MIR (current tree): close() sends the close signal, then gives up its Arc of the server state, then awaits the join future, and returns only its "
               "result; in the server task every connection future of both accept arms is registered with the one GracefulShutdown watcher before it is spawned, both accept loops are left "
-              "only through the select! branch that polled the close receiver, and every path to the task's end awaits graceful.shutdown(); the join future awaits the server task and "
+              "only through the select! branch that polled the close receiver (the `break` stands in that branch's handler, or the select! only classifies the event and the exit further down is taken only by executions in which it resolved to that branch), and every path to the task's end awaits graceful.shutdown(); the join future awaits the server task and "
               "WaitGroup::wait() on the wait group whose worker lives in the server state (with C16.R1: and in every detached handler task) before yielding Ok, and yields the server task's "
               "own error as Err -- decided for either spelling of that future: an async block / async fn (dominance over its await edges) or a chain of futures-crate combinators "
               "(map_err / map_ok / and_then / map / inspect / boxed.., evaluated symbolically to the set of ways the chain can resolve; any other combinator fails closed); join_future is a "
@@ -447,6 +447,20 @@ _I32 = " " * 32
 _I28 = " " * 28
 _JOIN_BLOCK = ("        let join_handle = async move {\n            // After the server shuts down, we also want to wait for any\n            // detached handler futures to complete.\n"
                "            () = join_handle\n                .await\n                .map_err(|e| format!(\"server stopped: {e}\"))?;\n            () = handler_waitgroup.wait().await;\n            Ok(())\n        };")
+_SEL_OLD = "                None => loop {\n                    tokio::select! {\n                        (sock, remote_addr) = http_acceptor.accept() => {\n"
+_SEL_TAIL_OLD = ("                            tokio::spawn(fut);\n                        },\n\n                        _ = &mut rx => {\n                            info!(log, \"beginning graceful shutdown\");\n"
+                 "                            break;\n                        }\n                    }\n                },")
+_SEL_TAIL_NEW = "                            tokio::spawn(fut);\n                        }\n                    }\n                },"
+
+
+def _sel_new(accept_arm):
+    """The HTTP accept loop with an expression-form select! that only classifies the event, a let-else guard that leaves the loop, and the
+    per-connection code at loop-body level."""
+    return ("                None => loop {\n                    let next_conn = tokio::select! {\n                        accepted = http_acceptor.accept() => " + accept_arm + ",\n"
+            "                        _ = &mut rx => None,\n                    };\n                    let Some((sock, remote_addr)) = next_conn else {\n"
+            "                        info!(log, \"beginning graceful shutdown\");\n                        break;\n                    };\n                    {\n                        {\n")
+
+
 SELFTEST = [
     {"name": "https-watch-skipped", "kind": "mutant", "why": "HTTPS connections are not registered with the graceful watcher: shutdown neither signals them nor waits for their in-flight responses",
      "edits": [(_S, _I32 + "let fut = graceful.watch(fut.into_owned());", _I32 + "let fut = fut.into_owned();")],
@@ -520,6 +534,11 @@ SELFTEST = [
     {"name": "close-swallows-join-error", "kind": "mutant", "why": "close() reports success although the server task failed",
      "edits": [(_S, "        mem::drop(self.app_state);\n\n        self.join_future.await\n", "        mem::drop(self.app_state);\n\n        match self.join_future.await {\n            Ok(()) => Ok(()),\n            Err(_message) => Ok(()),\n        }\n")],
      "expect": ["C17.R1"]},
+    {"name": "select-classifies-then-let-else-breaks", "kind": "benign", "why": "behaviour-preserving: the select! only turns the event into an Option (Some(connection) / None for the close signal); a let-else on it logs and breaks; the connection is served at loop-body level (the exit is decided under the hypotheses `the select resolved to branch i`)",
+     "edits": [(_S, _SEL_OLD, _sel_new("Some(accepted)")), (_S, _SEL_TAIL_OLD, _SEL_TAIL_NEW)]},
+    {"name": "select-classifies-connection-as-close", "kind": "mutant", "why": "same spelling, but the accept branch yields None for some peers: a connection from such a peer ends the accept loop although nobody asked the server to close",
+     "edits": [(_S, _SEL_OLD, _sel_new("if accepted.1.ip().is_unspecified() { None } else { Some(accepted) }")), (_S, _SEL_TAIL_OLD, _SEL_TAIL_NEW)],
+     "expect": ["C17.R2"]},
     {"name": "close-signal-via-local", "kind": "benign", "why": "behaviour-preserving: the sender is taken into a local first",
      "edits": [(_S, "        self.closer\n            .close_channel\n            .take()\n            .expect(\"cannot close twice\")\n            .send(())\n            .expect(\"failed to send close signal\");", "        let sender = self.closer.close_channel.take().expect(\"cannot close twice\");\n        let sent = sender.send(());\n        sent.expect(\"failed to send close signal\");")]},
 ]
